@@ -5,3 +5,6 @@ fn __o_then_some<T>(c: bool, x: T) -> (r: Option<T>) ensures r == (if c { Some(x
 fn __o_slice_range_len(len: usize, a: usize, b: usize) -> (r: usize) requires a <= b <= len ensures r == b - a { b - a }
 // `zip` stops at the shorter source (verified helper, not assumed)
 fn __o_min_len(a: usize, b: usize) -> (r: usize) ensures r == (if a <= b { a } else { b }) { if a <= b { a } else { b } }
+// std Result::and: the argument has already been evaluated; the first Err wins
+#[verifier::external_body]
+fn __o_result_and<T, E, U>(a: Result<T, E>, b: Result<U, E>) -> (r: Result<U, E>) ensures r == (match a { Ok(_) => b, Err(e) => Err(e) }) { a.and(b) }
